@@ -6,6 +6,7 @@ from engine.report import AnalysisError
 
 from . import arrayrules as R
 from . import common as K
+from .C07 import dtype_rule
 
 OPERATORS = ("FuzzyOr", "FuzzyAnd", "FuzzyNot", "FuzzyUnion", "FuzzyWeightedUnion", "FuzzySelectedUnion", "FuzzyXOr")
 
@@ -32,7 +33,7 @@ def branch_of(fi, node, names=("Truest", "Falsest")):
 def run(ctx, idx):
     ctx.assume("numpy axioms A11/A12: an ascending layer-axis sort puts the truest layer last; [-k:] selects the k truest, [:k] the k falsest")
     ctx.rule("C06.a", "Every declared data input flows into the returned value (for list inputs: the first element and the rest).")
-    ctx.rule("C06.b", "Inputs play symmetric roles: the input list is consumed only through sum, a fold with one binary function over [0] and [1:], stacking + layer-axis sort, len, or a zip of weights[i:] with arrays[i:] using the same i.")
+    ctx.rule("C06.b", "Inputs play symmetric roles (no buffer or accumulator whose element type is pinned to one input while the others are cast into it): the input list is consumed only through sum, a fold with one binary function over [0] and [1:], stacking + layer-axis sort, len, or a zip of weights[i:] with arrays[i:] using the same i.")
     ctx.rule("C06.c", "FuzzySelectedUnion: after the ascending layer sort the Truest branch averages TopK(NumberToConsider), the Falsest branch BottomK(NumberToConsider); NumberToConsider is checked against the number of inputs before use.")
     ctx.rule("C06.d", "FuzzyXOr reads exactly the two truest layers of the sorted stack and guards the quotient whose divisor is Top(1) - FUZZY_MIN with a test Top(1) <= FUZZY_MIN selecting the constant FUZZY_MIN.")
     res = {d.cls.name: (d, r) for d, r in R.results(idx).values() if d.module.name.endswith("eems.fuzzy")}
@@ -48,6 +49,7 @@ def run(ctx, idx):
                 ctx.ob("C06.e", R.ret_key(d, n) + "::union-of-masks", d.module.rel, R.line_of(s), not miss, "mask covers every input" if not miss else
                        "a cell missing in %s only comes out present: the operator then combines fewer inputs than its definition says (e.g. the k truest of the remaining layers)" % R.tok_text(miss))
         R.symmetric_roles(ctx, "C06.b", d, r)
+        dtype_rule(ctx, "C06.b", d, r)
     # C06.c
     d, r = res["FuzzySelectedUnion"]
     fi = d.execute
